@@ -278,6 +278,18 @@ func runC05(w *fw.Worker) {
 		}
 	phases:
 		for ph := 0; ph < nPhases; ph++ {
+			if ph > 0 && o.NSrc >= 3 && r.Chance(20) {
+				// one watcher (never the last source) finishes for good; its last value stays part of every later stack
+				cand := r.Intn(o.NSrc - 1)
+				// (its slot must hold a value that can stack and verify, or the fences of the concurrent phases could
+				// never make the stack valid again)
+				if cl := e.Model.Layers[st.Slots[cand]]; e.Srcs[cand] != nil && (cl == nil || (!cl.NegA && !cl.NegB && !cl.IllTyped)) {
+					e.Srcs[cand].WA().Done(ctx)
+					e.Srcs[cand] = nil
+					w.Count("watchers_done_mid_history", 1)
+					sig.WriteString("D")
+				}
+			}
 			if r.Chance(60) {
 				// sequential phase
 				n := r.Range(8, 50)
